@@ -2,6 +2,7 @@
 //! Protocol: one case per stdin line: `<engine> <tok> <tok> ...`; a token is `-` (empty list) or a
 //! comma-separated list of decimal naturals. One output line per case in the same token syntax,
 //! or `PANIC <message>` when the implementation panicked.
+mod caplog;
 mod ctxutil;
 mod engines;
 mod util;
@@ -13,6 +14,8 @@ fn main() {
     if std::env::var("VERIF_LOG").is_ok() {
         log::set_max_level(log::LevelFilter::Trace);
         let _ = log::set_logger(trusttunnel::log_utils::make_stdout_logger());
+    } else {
+        caplog::install();
     }
     if args.len() > 1 && args[1] == "child" {
         // single-case mode used for cases that may spin: engine + tokens come on argv
